@@ -37,6 +37,7 @@ impl Session {
             defer_effects: false,
         };
         let mut sys = System::boot(cfg, None)?;
+        sys.fingerprints = false;
         let resolver = Box::new(PackageResolver::memory(modules));
         let repl = Repl::new(&mut sys.env, resolver, super::system::builtin_registry(false))
             .map_err(|e| format!("Repl::new: {}", e))?;
